@@ -22,6 +22,12 @@ def scenarios(tier: str) -> list[dict]:
     out = SC.relay_order()
     if tier != 'quick':
         out += [s for s in SC.endings() if s['meta'].get('outcome') in ('return', 'raise', 'exit', 'terminate', 'kill')][:10]
+    # two Nextline objects in one process: object A stopped at a prompt with a subscriber on its per-trace prompt stream; another
+    # object goes through a whole life (its trace numbers restart at 1 too); A is then killed: A's streams must still be closed out
+    for ending in ('kill', 'terminate'):
+        steps = SC.START + [['call', 'A', 'run'], ['wait_prompt_open'], SC.settle(0.3), ['subscribe_prompt_info_for', 1], SC.settle(0.2),
+                            ['other_object_cycle'], SC.settle(0.3), ['call', 'B', ending], SC.settle(0.8), ['sample']]
+        out.append(SC.S(steps, dict(family='two-objects', outcome=ending, expect_complete=False), config={'answer': None}))
     for s in out:
         s['meta'] = dict(s['meta'], c11_system=True)
     return out
@@ -50,6 +56,10 @@ def oracle(scn: dict, obs: list[dict]) -> list[tuple[str, str]]:
         bad.append(('system:start-event-after-close-out',
                     f'{late[0]["hook"]} (trace {late[0].get("trace_no")}) was delivered after the run had been reported finished: '
                     'what it opens is never closed out'))
+    for st in [o for o in obs if o.get('k') == 'sub_start' and o['i'] < t_fin]:
+        if not any(o.get('k') == 'sub_end' and o.get('topic') == st['topic'] and o['i'] < cut for o in obs):
+            bad.append(('system:per-trace-prompt-stream-not-terminated',
+                        f'a subscriber attached to {st["topic"]} while the trace was live is still waiting after the run was reported finished'))
     ended = any(o.get('k') == 'sub_end' and o.get('topic') == 'prompt_notice' and o['i'] < cut for o in obs)
     if not ended:
         bad.append(('system:notice-stream-not-terminated', 'the run is finished but the prompts() stream attached before it has not terminated'))
